@@ -142,6 +142,16 @@ func newK8sSystem(thorough bool) *k8sSystem {
 	return s
 }
 
+// Unmerged: one object, the status patch succeeds.
+func (s *k8sSystem) Unmerged(quick bool) (int, func(Action) bool) {
+	depth := 5
+	if quick {
+		depth = 4
+	}
+
+	return depth, func(a Action) bool { return a.A == k8sObjects[0] && a.D == kOK }
+}
+
 func (s *k8sSystem) Name() string { return "kubernetes" + x(s.thorough, "+more-status-outcomes", "") }
 
 var k8sObjects = []string{"x", "y"}
